@@ -12,7 +12,7 @@ from harness.interp_gen import Gen
 PROP = 'C06'
 LEAN_MODULES = ['Glom.Props.C06']
 FACT_FILES = ['C06Facts', 'c06']
-THEOREMS_PER_MODULE = {'Glom.Props.C06': 38}
+THEOREMS_PER_MODULE = {'Glom.Props.C06': 40}
 READY = True
 RULE = ('one case = one history of 20-200 operations on one interpreter whose caches are reset first: direct '
         'Path.from_text calls on a pool of texts (with "*" / "**" / empty / repeated segments), glom calls drawn from a '
@@ -44,9 +44,15 @@ RULE = ('one case = one history of 20-200 operations on one interpreter whose ca
         'expanded instance: how the result shows its children were reached (keys+get / iterate / none) and the tagged '
         'handlers that ran, replayed as the strategy starStrategy through the memo model and against the uncached '
         'TReg.compute (refStar); '
-        '(d) direct handler lookups (a custom spec whose glomit asks scope[TargetRegistry].get_handler(op, target) and '
-        'returns the tag of what it got: lookup1 of the model) for every op (get, iterate, keys, assign, delete) on '
-        'instances of the generated classes and of builtin set / frozenset / range; the classes of a case include 0-2 '
+        '(d) direct handler lookups (a custom spec whose glomit asks scope[TargetRegistry].get_handler(op, target, '
+        'raise_exc=True|False) and returns what the caller sees: the tag of the handler, <false> for a returned False, '
+        'UnregisteredTarget: lookupX of the model) for every op (get, iterate, keys, assign, delete) on '
+        'instances of the generated classes and of builtin set / frozenset; pairs raise_exc=False then raise_exc=True of '
+        'the same (type, op) in the same registry, mostly where there is no handler (keys of an instance without '
+        '__dict__: the first stores False in the memo); the assign / delete lookup of a virtual subclass with a __dict__ '
+        '(two candidates outside the MRO) before and after register(<its ABC>, <op>=h), also replayed with the same '
+        'registrations in freshly spawned interpreters with other memory layouts (the tie-break must be a function of '
+        'the registrations); the classes of a case include 0-2 '
         'iterable ABCs of which generated classes are virtual subclasses (ABC.register or __subclasshook__) and the '
         'collections.abc class of the builtin; registrations may be exact=True; type-directed triples lookup / '
         'register(the type itself | a base | a subclass | the ABC it is a virtual subclass of, exact or not, with a '
@@ -57,7 +63,9 @@ RULE = ('one case = one history of 20-200 operations on one interpreter whose ca
         'frozenset / dict literal rebuilt by arg_val, the spec\'s own bytearray passed through), T expressions reading '
         'a container of the target (the same one included), nested T arithmetic, literal lists holding a T; 80 % of '
         'the operations type-correct, the rest any operator x any operand kind; bare, as values (and T keys) of a dict '
-        'spec, mapped over the rows by a list spec, in a tuple chain, under Coalesce with / without default; the '
+        'spec, mapped over the rows by a list spec, in a tuple chain, under Coalesce with / without default, and Call '
+        'specs / plain callable specs over a catalogue of non-mutating callables (len, ident, first, wrap, pair, list, '
+        'tuple) on T reads of the target; the '
         'thorough tier also enumerates every operator x 8 left operand kinds x 9 right operand kinds, each '
         'evaluated twice; observed per call: the heap graph (every container by address = identity) of target and '
         'spec-owned objects before and after, the result as a graph (a mutable object that existed before by its '
@@ -70,10 +78,14 @@ TRUSTED = ['the uncached handler lookup is modelled as "the type itself, else th
            'CPython: the binary operators of list, tuple, bytearray, set, frozenset, dict build a new object and leave '
            'their operands alone (modelled by aBin, compared with CPython on every generated case)']
 ASSUMPTIONS = ['"inputs untouched" is a heap-level theorem for T expressions (item steps + every arithmetic operator over '
-               'scalars, lists, tuples, bytearrays, sets, frozensets, dicts), arg_val, dict / list / tuple specs, Coalesce '
-               '(c06_tarith_frame, c06_spec_frame, c06_calls_frame) and for Vars/ScopeVars (c06_vars_frame); for the other '
-               'constructs (callables, Call / Invoke, Fold / Group, Match, Iter, S-rooted expressions) it is observed by '
-               'deep snapshots',
+               'scalars, lists, tuples, bytearrays, sets, frozensets, dicts), arg_val, dict / list / tuple specs, Coalesce, '
+               'Call / callable specs over the catalogue of non-mutating callables (c06_spec_frame, c06_calls_frame) and for '
+               'Vars/ScopeVars (c06_vars_frame); for the other constructs (arbitrary user callables, Invoke, Fold / Group, '
+               'Match, Iter, S-rooted expressions) it is observed by deep snapshots',
+               'READING: the identity of an immutable result (tuple, frozenset) is not an observation: CPython may return '
+               'an existing object (`t + ()` is `t`); "a result is a new object" is checked for mutable results only',
+               'READING: a heap-level call of the model makes no cache query: a list spec iterates with the default iterate '
+               'handler (the registry lookups of list specs are exercised by the cache-level entries (b)-(d))',
                'specs in the pool contain no Assign/Delete/scope assignment into target-owned objects; scope assignment '
                'into the per-call scope (A.n, A.v.n, A.globals.n) is in the domain']
 MANIFEST = dict(
@@ -90,16 +102,22 @@ MANIFEST = dict(
           "every item are reached by the handlers the registrations in force give; the facts obligation also requires "
           "that no function of glom keeps a handler obtained from get_handler outside the memo that register() resets "
           "(handlerStoredOutsideMemo = [], memoTouchedOutsideRegistry = []) and accepts either reset form. The concrete "
+          "memo stores False for a raise_exc=False lookup without handler and a raising lookup raises also on that hit "
+          "(c06_handler_memo, c06_quiet_then_raising_lookup; the code before 8b51f6e: c06_memo_false_counterexample). The "
           "registry (TReg) has exact= registrations and virtual (ABC) bases: c06_register_candidate_wins / "
           "c06_register_abc_wins / c06_register_exact_self / c06_register_exact_not_inherited and their "
           "lookup-register-lookup histories. 'Inputs untouched' is a heap-level frame theorem on a heap with object "
           "identity for T expressions (item steps and all twelve arithmetic operators over scalars, lists, tuples, "
-          "bytearrays, sets, frozensets, dicts, nested to any depth), arg_val, dict / list / tuple specs and Coalesce: "
-          "an evaluation only appends cells (c06_tarith_frame, c06_spec_frame), its container results are new objects "
+          "bytearrays, sets, frozensets, dicts, nested to any depth), arg_val, dict / list / tuple specs, Coalesce and "
+          "Call / callable specs over a catalogue; the model stores into heap cells where glom stores into objects "
+          "(ret[field] = val, ret.append, result.update / extend) and has a mutating callable, and the theorem says an "
+          "evaluation without mutating callable writes only objects it created (c06_spec_frame, c06_tarith_frame; "
+          "c06_mutating_callable_counterexample), its container results are new objects "
           "(c06_tarith_fresh, c06_spec_fresh), any sequence of calls leaves every old cell and every observable tree "
           "as it was (c06_calls_frame, c06_view_preserved), and the outcome of a call (the tree its value denotes, or "
           "its error) is the same whatever calls were made before it (c06_repeat_same: evaluation commutes with "
-          "relocation of the objects it creates); c06_arith_checker ties the decidable checker the driver "
+          "relocation of the objects it creates); c06_mixed_history states both halves for any interleaving of "
+          "cache-level events and heap-level calls; c06_arith_checker ties the decidable checker the driver "
           "evaluates on the implementation's before/after heap graph to these theorems; the facts obligation "
           "c06_facts_arith_binary requires every arithmetic branch of _t_eval to be the binary operator statement "
           "(cur = cur + arg, or the operator-module function of a dispatch table), not an in-place one."),
@@ -266,7 +284,7 @@ def build06(j, fns):
     if k == 'list':
         return [B(x) for x in j['xs']]
     if k == 'lookup6':
-        return Lookup6(j['op'])
+        return Lookup6(j['op'], j.get('rx', True))
     return ic.build(j, fns)
 
 
@@ -443,11 +461,21 @@ T_OPS = {'+': lambda t, a: t + a, '-': lambda t, a: t - a, '*': lambda t, a: t *
 BIN_OPS = ['+', '-', '*', '#', '/', '%', ':', '&', '|', '^']
 
 
+# the catalogue of callables of the heap model (lean/Glom/Model/C06Heap.lean: callFn6); none of them writes
+# its arguments
+CAT6 = {'len': len, 'ident': lambda x: x, 'first': lambda x: x[0], 'wrap': lambda x: [x],
+        'pair': lambda a, b: [a, b], 'list': list, 'tuple': tuple}
+
+
 def build_sp(j, dv):
     """Sp JSON (see lean/Glom/Driver/C06.lean) -> the real spec object"""
     import glom
     if 'lit' in j:
+        if isinstance(j['lit'], dict) and 'fn' in j['lit']:
+            return CAT6[j['lit']['fn']]
         return dv(j['lit'])
+    if 'call' in j:
+        return glom.Call(CAT6[j['call']], args=tuple(build_sp(x, dv) for x in j['args']))
     if 't' in j:
         t = glom.T
         for op, arg in j['t']:
@@ -536,6 +564,8 @@ def right_operand(rng, kind, own, depth=0):
         return _lit(rng.choice([2.5, 0.5]))
     if kind == 'list':
         q = rng.random()
+        if q < 0.12:
+            return call_spec(rng)['as_list']                       # Call(wrap / list / pair, …): a list built by a callable
         if q < 0.25:
             return {'seq': 'list', 'xs': [_path('n')]}             # a literal list holding a T
         if q < 0.4:
@@ -551,6 +581,21 @@ def right_operand(rng, kind, own, depth=0):
     if kind == 'dict':
         return {'dict': [[_lit(rng.choice(['k', 'a', 'new'])), rng.choice([_lit(1), _path('n'), {'seq': 'list', 'xs': []}])]]}
     raise ValueError(kind)
+
+
+def call_spec(rng):
+    """a Call spec over the catalogue (args: T expressions reading the target), and a callable usable as a plain
+    spec after a T step"""
+    f = rng.choice(['l', 'l2', 't', 'd', 'ba', 's', 'n', 'st', 'rows'])
+    name = rng.choice(['len', 'ident', 'first', 'wrap', 'list', 'tuple', 'pair'])
+    args = [_path(f)] if name != 'pair' or rng.random() < 0.1 else [_path(f), _path(rng.choice(['l', 'n']))]
+    if rng.random() < 0.1:
+        args.append(_lit(1))                                        # wrong arity
+    aslist = rng.choice([{'call': 'wrap', 'args': [_path(rng.choice(['n', 'l']))]},
+                         {'call': 'list', 'args': [_path(rng.choice(['l', 't', 'd']))]},
+                         {'call': 'pair', 'args': [_path('n'), _path('l')]}])
+    return {'call': {'call': name, 'args': args}, 'as_list': aslist,
+            'chain': {'seq': 'tuple', 'xs': [_path(f), {'lit': {'fn': rng.choice(['len', 'ident', 'first', 'wrap', 'list', 'tuple'])}}]}}
 
 
 def arith_chain(rng, own, field=None, combo=None, root_steps=None):
@@ -592,10 +637,14 @@ def arith_entry(rng, combo=None):
     if combo is not None:
         first = arith_chain(rng, own, field=combo[0], combo=(combo[1], combo[2]))
         spec = first if p < 0.6 else {'dict': [[_lit('out'), first], [_lit('again'), first]]}
-    elif p < 0.4:
+    elif p < 0.34:
         spec = chain()
+    elif p < 0.42:
+        c = call_spec(rng)                      # Call(<catalogue callable>, args=(T[...],)) / (T[...], <callable>)
+        spec = rng.choice([c['call'], c['chain'], {'dict': [[_lit('c'), c['call']], [_lit('n'), {'lit': {'fn': 'len'}}]]}])
     elif p < 0.6:
-        spec = {'dict': [[rng.choice([_lit('k%d' % i), _lit('k%d' % i), _path('st')]), chain()]
+        spec = {'dict': [[rng.choice([_lit('k%d' % i), _lit('k%d' % i), _path('st')]),
+                          chain() if rng.random() < 0.85 else call_spec(rng)['call']]
                          for i in range(rng.randint(1, 3))]}
     elif p < 0.75:
         item = arith_chain(rng, own, field='l', root_steps=[])          # T + [...] / T * 2 on every row
@@ -713,8 +762,10 @@ def gen_classes(rng):
         if free:
             descs[rng.choice(free)]['abc_of'] = len(descs) - 1
     if rng.random() < 0.35:                 # a builtin type and the collections.abc class it is a virtual subclass of
-        b = rng.choice(['set', 'frozenset', 'range'])
-        descs.append({'name': {'range': 'Sequence'}.get(b, 'Set'), 'abc': 'collections', 'bases': []})
+        # (collections.abc.Set only: list / tuple — the containers the targets of the other entries are made of —
+        # are virtual subclasses of Sequence, so registering Sequence would change *their* handlers)
+        b = rng.choice(['set', 'frozenset'])
+        descs.append({'name': 'Set', 'abc': 'collections', 'bases': []})
         descs.append({'name': b, 'builtin': b, 'bases': []})
     while True:
         ks = _mk_classes(descs)
@@ -831,41 +882,49 @@ def tagged(op, tag):
 
 
 class Lookup6:
-    """the smallest call that depends on the registrations (`lookup1` of the model): one handler lookup in the
-    registry of the call for the target; its outcome is the handler it got (the tag of a generated one,
-    'default' for a built-in one).  A custom spec (documented extension point); it changes nothing."""
-    def __init__(self, op):
+    """the smallest call that depends on the registrations (`lookupX` of the model): one handler lookup in the
+    registry of the call for the target, with either value of raise_exc; its outcome is what the caller of
+    get_handler sees: the handler it got (the tag of a generated one, 'default' for a built-in one), '<false>'
+    when False was returned (raise_exc=False, no handler), UnregisteredTarget otherwise.  A custom spec
+    (documented extension point); it changes nothing."""
+    def __init__(self, op, raise_exc=True):
         self.op = op
+        self.raise_exc = raise_exc
 
     def glomit(self, target, scope):
         from glom.core import TargetRegistry, Path
-        h = scope[TargetRegistry].get_handler(self.op, target, path=scope[Path])
+        h = scope[TargetRegistry].get_handler(self.op, target, path=scope[Path], raise_exc=self.raise_exc)
+        if h is False:
+            return '<false>'
         return getattr(h, '_c06_tag', 'default')
 
     def __repr__(self):
-        return 'Lookup6(%r)' % self.op
+        return 'Lookup6(%r, raise_exc=%r)' % (self.op, self.raise_exc)
 
 
 ALL_OPS = ['get', 'iterate', 'keys', 'assign', 'delete']
-# GATED (genuine defect reported to the lead, see the report / DESIGN §5 when committed): for an instance WITH a
-# __dict__ that is a virtual subclass of a registered ABC, the 'assign' / 'delete' lookup has two candidates outside
-# the MRO (_ObjStyleKeys and the ABC below _AbstractIterable); which one wins depends on the order in which
-# TargetRegistry.register_op() walks `known_types` — a *set* of type objects, i.e. on memory addresses: the outcome
-# differs between interpreter processes.  Switch on after `for t in known_types` iterates in a defined order.
-ABC_TIE_LOOKUPS = False
 
 
-def lookup_entry(rng, classes, force=None):
-    """a direct handler lookup for an instance of one of the classes (generated or builtin), for any op"""
+def tie_classes(classes):
+    """instances with a __dict__ that are virtual subclasses of an ABC: their 'assign' / 'delete' lookup has two
+    candidates outside the MRO (the ABC below _AbstractIterable, and _ObjStyleKeys); which one wins is decided by
+    the order of the sibling branches of the type tree, which register_op builds in registration order"""
+    return [i for i, c in enumerate(classes) if c.get('virt') and c.get('dict') and not c.get('builtin')]
+
+
+def lookup_entry(rng, classes, force=None, rx=None):
+    """a direct handler lookup for an instance of one of the classes (generated or builtin), for any op, with
+    raise_exc=True (mostly) or False"""
     cand = [i for i, c in enumerate(classes) if not c.get('abc')]
     i, op = force if force else (rng.choice(cand), rng.choice(ALL_OPS))
     c = classes[i]
-    if not ABC_TIE_LOOKUPS and c.get('virt') and c.get('dict') and op in ('assign', 'delete'):
-        op = rng.choice(['get', 'iterate', 'keys'])
     if c.get('builtin') and op in ('assign', 'delete'):
         # (set / frozenset / range are "unassignable" builtins: registering the type itself stores False for them)
         op = rng.choice(['get', 'iterate', 'keys'])
-    return {'otarget': {'inst': i}, 'spec': {'k': 'lookup6', 'op': op}, 'lookups': [[c['name'], op]], 'lookup': True}
+    if rx is None:
+        rx = rng.random() < 0.7
+    return {'otarget': {'inst': i}, 'spec': {'k': 'lookup6', 'op': op, 'rx': rx}, 'lookups': [[c['name'], op]],
+            'lookup': True, 'rx': rx}
 
 
 def _py_pool():
@@ -957,6 +1016,26 @@ def generate(rng, tier, scale, **focus):
             q = rng.random()
             objs.append(star_entry(rng, kcls) if q < 0.3 else obj_entry(rng, kcls) if q < 0.6 else
                         lookup_entry(rng, classes))
+        # the lookup whose candidates outside the MRO tie (assign / delete of a virtual subclass with a __dict__)
+        ties = tie_classes(classes)
+        tie_idx = None
+        if ties and rng.random() < 0.8:
+            objs.append(lookup_entry(rng, classes, force=(rng.choice(ties), rng.choice(['assign', 'delete'])), rx=True))
+            tie_idx = len(objs) - 1
+        # a lookup with raise_exc=False, then the same lookup raising — mostly of a (type, op) without handler
+        # (`keys` of an instance without __dict__), where the first stores False in the memo
+        quiet_pairs = []
+        for _ in range(rng.randint(0, 2) + (2 if focus.get('reg') else 0)):
+            nodict = [k for k, c in enumerate(classes) if not c.get('abc') and c.get('dict') is False]
+            if nodict and rng.random() < 0.75:
+                force = (rng.choice(nodict), 'keys')
+            else:
+                force = (rng.choice([k for k, c in enumerate(classes) if not c.get('abc')]), rng.choice(ALL_OPS))
+            first = lookup_entry(rng, classes, force=force, rx=False)
+            force = (force[0], first['lookups'][0][1])
+            objs.append(first)
+            objs.append(lookup_entry(rng, classes, force=force, rx=True))
+            quiet_pairs.append((len(objs) - 2, len(objs) - 1))
         # T arithmetic on containers the target owns: random ones, and (thorough) a slice of the enumeration of
         # every operator x left operand kind x right operand kind
         ariths = [arith_entry(rng) for _ in range(6)]
@@ -995,6 +1074,8 @@ def generate(rng, tier, scale, **focus):
                     o['idx'] = i_obj + rng.randrange(len(objs))
                 else:
                     o['idx'] = i_ar + rng.randrange(6)
+                if 0.6 <= q < 0.8 and rng.random() < 0.5:
+                    o['idx'] = i_obj + rng.randrange(7)          # (the directed entries get their own histories below)
                 if (0.6 <= q < 0.8 or rng.random() < 0.2) and n_regs > 1:
                     o['reg'] = rng.randrange(n_regs)
                 ops.append(o)
@@ -1008,6 +1089,29 @@ def generate(rng, tier, scale, **focus):
         for x in range(i_ar, len(entries)):
             for _ in range(1 if x < i_ar + 6 else 2):
                 ops.insert(rng.randrange(len(ops) + 1), {'op': 'glom', 'idx': x})
+        # raise_exc=False, (sometimes another op in between), raise_exc=True: the same (type, op), the same registry
+        for qa, qb in quiet_pairs:
+            reg = rng.randrange(n_regs)
+            pos = sorted(rng.randrange(len(ops) + 1) for _ in range(2))
+            for off, x in enumerate((qa, qb)):
+                call = {'op': 'glom', 'idx': i_obj + x}
+                if reg:
+                    call['reg'] = reg
+                ops.insert(pos[off] + off, call)
+        # the tie: the lookup, register(<the ABC>, <that op>=h) (not exact), the lookup again
+        if tie_idx is not None:
+            ty, opname = objs[tie_idx]['lookups'][0]
+            abc_i = next(k for k, c in enumerate(classes)
+                         if c['name'] in next(c2 for c2 in classes if c2['name'] == ty)['virt'])
+            reg = rng.randrange(n_regs)
+            r = reg_op(rng, classes, reg, abc_i, counter, want=opname)
+            r.pop('exact', None)
+            pos = sorted(rng.randrange(len(ops) + 1) for _ in range(3))
+            call = {'op': 'glom', 'idx': i_obj + tie_idx}
+            if reg:
+                call['reg'] = reg
+            for off, item in enumerate((dict(call), r, dict(call))):
+                ops.insert(pos[off] + off, item)
         # type-directed: a lookup, a registration of a related type (itself, a base, a subclass, the ABC it is a
         # virtual subclass of; exact or not) in the same registry, the same lookup — for every op
         for _ in range(rng.randint(1, 4) + (4 if focus.get('reg') else 0)):
@@ -1028,7 +1132,7 @@ def generate(rng, tier, scale, **focus):
             for off, item in enumerate((dict(call), r, dict(call))):
                 ops.insert(pos[off] + off, item)
         yield {'pool': entries, 'classes': classes, 'n_regs': n_regs, 'ops': ops,
-               'fresh_budget': 4 if tier == 'quick' else 7}
+               'fresh_budget': 4 if tier == 'quick' else 7, 'layout_budget': 2 if tier == 'quick' else 4}
 
 
 def focus(disagreements, facts_changed):
@@ -1229,11 +1333,33 @@ def fresh_outcome(args):
     repo, tj, sj, star = args
     sys.path.insert(0, repo)
     from harness import interp_common as ic2
-    if tj is None:                        # an arith entry (sj)
+    if tj == 'ARITH-ENTRY':               # an arith entry (sj)
         t, s, _ = build_arith(sj)
         return outcome(t, s, star, encode=tree6)
     fns = {}
     return outcome(ic2.dec(tj, fns), ic2.build(sj, fns), star)
+
+
+def layout_outcome(args):
+    """runs in a freshly spawned interpreter whose memory layout before `import glom` differs (`pad` blocks of
+    1000 bytes): the classes of the case, a new Glommer given the same registrations in the same order, the
+    same direct lookup"""
+    import sys
+    repo, classes, regs, ci, opn, rx, pad = args
+    keep = [bytearray(1000) for _ in range(pad)]
+    sys.path.insert(0, repo)
+    import glom
+    klasses = _mk_classes(classes)
+    by_name = {c.__name__: c for c in klasses}
+    g = glom.Glommer()
+    for cname, kw, exact in regs:
+        kws = {o: tagged(o, t) for o, t in kw}
+        if exact:
+            kws['exact'] = True
+        g.register(by_name[cname], **kws)
+    oc = outcome(dec_o({'inst': ci}, klasses, {}), Lookup6(opn, rx), True, g.glom)
+    del keep
+    return strip_fn_names({k: v for k, v in oc.items() if k != 'log'})
 
 
 _POOL = None
@@ -1284,11 +1410,17 @@ def run_impl(case):
     Path._CACHE = {True: {}, False: {}}
     gc.PATH_STAR = True
     registered = []                      # classes registered on the module-level registry (undone at the end)
-    klasses = _mk_classes(case.get('classes', []))
+    case['classes'] = [dict(d, virt=d.get('virt', []), dict=d.get('dict', None if d.get('abc') else True))
+                       for d in case.get('classes', [])]
+    klasses = _mk_classes(case['classes'])
     by_name = {c.__name__: c for c in klasses}
     n_regs = case.get('n_regs', 1)
     glommers = [glom.Glommer() for _ in range(n_regs - 1)]
     reg_hist = [[] for _ in range(n_regs)]        # per registry: (class, handlers) in registration order
+    reg_json = [[] for _ in range(n_regs)]        # the same as JSON (class name, [[op, tag]…], exact): for a replay
+    #                                               in another interpreter
+    layout_jobs = []
+    layout_budget = case.get('layout_budget', 2)
 
     arith_objs = {}
 
@@ -1325,7 +1457,13 @@ def run_impl(case):
                 gc.PATH_STAR = op['v']
             elif op['op'] == 'register':
                 r = op.get('reg', 0)
-                if 'cls' in op:
+                o['reg'] = r
+                o['cls'] = op.get('cls')
+                o['kw'] = op.get('kw', [])
+                o['exact'] = bool(op.get('exact'))
+                if op.get('cls') is not None:     # (a fresh unrelated class matches no instance of the case)
+                    reg_json[r].append([op['cls'], op.get('kw', []), bool(op.get('exact'))])
+                if op.get('cls') is not None:
                     cls = by_name[op['cls']]
                     kw = {opn: tagged(opn, tag) for opn, tag in op.get('kw', [])}
                     if op.get('exact'):
@@ -1346,6 +1484,10 @@ def run_impl(case):
                 t, s, sc, cp = objs[op['idx']]
                 if 'tidx' in op:
                     t = objs[op['tidx']][0]          # the same spec object on another target
+                o['reg'] = r
+                for k in ('same_as_fresh_registry', 'same_as_expected', 'same_in_other_layouts', 'impl_star', 'vars', 'arith'):
+                    o[k] = None
+                o['impl_lookups'] = []
                 if r != 0:
                     sc = None                        # Glommer.glom passes its own scope
                 keys_before = {b: set(Path._CACHE[b]) for b in (True, False)}
@@ -1404,13 +1546,26 @@ def run_impl(case):
                 if entry.get('lookup') and 'tidx' not in op:
                     # a direct lookup: the outcome is the handler (UnregisteredTarget: there is none)
                     (ty, opn), = entry['lookups']
+                    rx = entry.get('rx', True)
                     if 'ok' in oc:
-                        o['impl_lookups'] = [[ty, opn, oc['ok'].get('s', '?')]]
+                        o['impl_lookups'] = [[ty, opn, oc['ok'].get('s', '?'), rx]]
                     elif oc.get('err') == 'UnregisteredTarget':
-                        o['impl_lookups'] = [[ty, opn, '<none>']]
+                        o['impl_lookups'] = [[ty, opn, '<none>', rx]]
+                    else:
+                        o['impl_lookups'] = [[ty, opn, '<error %s>' % oc.get('err'), rx]]
+                    # the tie-break among candidates outside the MRO must be a function of the registrations:
+                    # the same registrations and the same lookup in fresh interpreters with other memory layouts
+                    ci = entry['otarget']['inst']
+                    tie = ci in tie_classes(case['classes']) and opn in ('assign', 'delete')
+                    if reg_json[r] and (tie or layout_budget > 1) and layout_budget > 0:
+                        layout_budget -= 1
+                        for pad in ((3, 7, 12) if tie else (5,)):
+                            layout_jobs.append((len(ops_out), strip_fn_names({k: v for k, v in oc.items() if k != 'log'}),
+                                                (os.environ.get('GLOM_REPO', '/repo'), case['classes'], list(reg_json[r]),
+                                                 ci, opn, rx, pad)))
                 elif 'lookups' in entry and 'tidx' not in op and 'ok' in oc:
                     ran = {(l['type'], l['op']): l['handler'] for l in oc['log'] if 'handler' in l}
-                    o['impl_lookups'] = [[ty, opn, ran.get((ty, opn), 'default')] for ty, opn in entry['lookups']]
+                    o['impl_lookups'] = [[ty, opn, ran.get((ty, opn), 'default'), True] for ty, opn in entry['lookups']]
                 if 'star' in entry and 'tidx' not in op and 'ok' in oc and (gc.PATH_STAR or not entry['star_text']):
                     o['impl_star'] = star_observation(entry, oc)
                 vo = vars_observation(entry, 'e%d' % op['idx'], t, oc)
@@ -1425,7 +1580,7 @@ def run_impl(case):
                 elif budget > 0 and not reg_hist[0] and r == 0 and 'arith' in entry:
                     budget -= 1
                     fresh_jobs.append((len(ops_out), oc,
-                                       (os.environ.get('GLOM_REPO', '/repo'), None, {'arith': entry['arith']}, gc.PATH_STAR)))
+                                       (os.environ.get('GLOM_REPO', '/repo'), 'ARITH-ENTRY', {'arith': entry['arith']}, gc.PATH_STAR)))
             if op['op'] != 'register' and op['op'] != 'set_star':
                 o['impl_sizes'] = [len(Path._CACHE[True]), len(Path._CACHE[False])]
             ops_out.append(o)
@@ -1439,6 +1594,15 @@ def run_impl(case):
             for tree in reg._op_type_tree.values():
                 _prune(tree, cls)
         reg._type_cache = {}
+    if layout_jobs:
+        results = fresh_pool().map(layout_outcome, [j[2] for j in layout_jobs])
+        for (pos, oc, _), fr in zip(layout_jobs, results):
+            same = (fr == oc)
+            if ops_out[pos]['same_in_other_layouts'] is None or not same:
+                ops_out[pos]['same_in_other_layouts'] = same
+            if not same:
+                ops_out[pos]['other_layout'] = fr
+                ops_out[pos]['here'] = oc
     if fresh_jobs:
         results = fresh_pool().map(fresh_outcome, [j[2] for j in fresh_jobs])
         for (pos, oc, _), fr in zip(fresh_jobs, results):
@@ -1462,7 +1626,8 @@ def _prune(tree, cls):
 
 
 OBSERVED = ('same_as_expected', 'same_as_first', 'same_as_fresh', 'same_as_rebuilt', 'inputs_unchanged', 'fresh', 'here',
-            'same_as_fresh_registry', 'fresh_registry', 'spec_graph_unchanged', 'scope_unchanged', 'vars', 'arith')
+            'same_as_fresh_registry', 'fresh_registry', 'spec_graph_unchanged', 'scope_unchanged', 'vars', 'arith',
+            'same_in_other_layouts', 'other_layout')
 
 
 def key(case):
